@@ -94,4 +94,18 @@ SHIMS = {
                              spec='type-checked rewrite; no spec'),
     'unbox-range-new': dict(pattern=r'Box::new\(((?:[^()]|\((?:[^()]|\([^()]*\))*\))*)\)', replace=r'\1',
                             spec='type-checked rewrite; no spec'),
+    # ---- unit sgr (C08): select_graphic_rendition / CharOpts::to_map ----
+    'sgr-put': dict(pattern=r'\breplace\.insert\(', replace=r'sgr_put(&mut replace, ', spec='VERIFIED wrapper around HashMap<String,String>::insert, stated by key text (mget)'),
+    'map-put': dict(pattern=r'\bmap\.insert\(', replace=r'sgr_put(&mut map, ', spec='VERIFIED wrapper around HashMap<String,String>::insert, stated by key text (mget)'),
+    'sgr-extend': dict(pattern=r'\breplace\.extend\(', replace=r'sgr_extend(&mut replace, ', spec="HashMap::extend(other map): M' == M.union_prefer_right(O)"),
+    'sgr-tbl-has': dict(pattern=r'\b(FG_ANSI|BG_ANSI|TEXT|FG_AIXTERM|BG_AIXTERM)\.contains_key\(&(\w+)\)', replace=r'tblhas_\1(\2)', spec='membership in the documented table (contents: unit graphics / assumed)'),
+    'sgr-tbl-get': dict(pattern=r'\b(FG_ANSI|BG_ANSI|FG_AIXTERM|BG_AIXTERM)\[&(\w+)\]\.clone\(\)', replace=r'tblget_\1(\2)', spec='the documented table entry (requires membership: Index panics otherwise)'),
+    'sgr-text-ref': dict(pattern=r'&TEXT\[&(\w+)\]', replace=r'tblref_TEXT(\1)', spec='the documented TEXT entry (requires membership)'),
+    'str-tail': dict(pattern=r'\b(\w+)\[1\.\.\]\.to_string\(\)', replace=r'str_tail_to_string(\1)', spec='requires a one-byte first character; r@ == s@.subrange(1, len)'),
+    'starts-with-to-string': dict(pattern=r"\b(\w+)\.starts_with\(('.')\)\.to_string\(\)", replace=r'starts_with_char_to_string(\1, \2)', spec='r@ == "true"/"false" according to the first character'),
+    'palette-get': dict(pattern=r'\bFG_BG_256\[(\w+) as usize\]\.clone\(\)', replace=r'palette_get(\1 as usize)', spec='requires index < 256; r@ == palette(index) (table contents assumed)'),
+    'palette-len': dict(pattern=r'\bFG_BG_256\.len\(\)', replace=r'palette_len()', spec='r == 256'),
+    'fmt-hex6': dict(pattern=r'format!\(("[^"]*"), (\w+), (\w+), (\w+)\)', replace=r'fmt_hex6(\1, \2, \3, \4)', spec='for the format string "{:02x}{:02x}{:02x}" and components <= 255: hex6(r, g, b)'),
+    'bool-to-string': dict(pattern=r'\bself\.(bold|italics|underscore|strikethrough|reverse|blink)\.to_string\(\)', replace=r'bool_to_string(self.\1)', spec='r@ == "true" / "false"'),
+    'rgb-vec-to-hex': dict(pattern=r'\bfg_bg_256\.iter\(\)\s*\.map\(\|&\(r, g, b\)\| format!\(("[^"]*"), r, g, b\)\)\s*\.collect\(\)', replace=r'rgb_vec_to_hex(\1, &fg_bg_256)', spec='elementwise format!("{:02x}{:02x}{:02x}") of the (r,g,b) triples: hex6 for components in 0..=255'),
 }
